@@ -181,6 +181,8 @@ pub struct Setup {
 #[derive(Clone, Debug, PartialEq, Eq)]
 pub struct Obs {
     pub id: SimId,
+    /// the part of the identity value in use that its equality does not cover
+    pub id_shade: u8,
     /// iter_members(), sorted by (addr, gen)
     pub active: Vec<Member<SimId>>,
     /// iter_membership_state(), sorted by (addr, gen)
@@ -271,6 +273,7 @@ impl Node {
         state.sort_by_key(|m| (m.id().addr, m.id().gen));
         Obs {
             id: self.id(),
+            id_shade: self.id().shade,
             active,
             state,
             num_members: self.foca.num_members(),
